@@ -52,7 +52,7 @@ CHECKS = {
  "C18": dict(cat="exploration", sec="§4 C18", tech="exhaustive enumeration over a structured alphabet of keys x labels x freshness x versions and its deviation-1 neighbourhood (every other alphabet element substituted, every bit of the claimed label, every bit/byte of the proof), real VRF code and real lookup_verify",
    text="3 keys x 6 labels (empty, prefix-related, 300 bytes) x 2 freshness x 8 versions across the u64 range x 2 configurations: all derivation paths agree and are deterministic, the proof verifies and yields the placed label; every single-field alteration at verification (key, label, freshness, version from the alphabet; every bit of the claimed node label; every bit and 0x00/0xff of every proof byte; wrong sizes) is rejected or yields the same label; labels and commitments are distinct across keys; directory-level lookups verify only under the right key and with unaltered/unexchanged VRF proofs. The enumeration says nothing about cryptographic soundness beyond this alphabet."),
 
- "C08": dict(cat="model_checking", sec="§4 C08", tech="exhaustive sweep of an abstract constraint-set model (atoms = fresh/stale leaves required present/absent, marker lists from the real get_marker_versions) over epochs x version ranges, bound to the implementation by exhaustive conformance experiments and pair replays on real dishonest trees",
+ "C08": dict(cat="model_checking", sec="§4 C08", tech="exhaustive sweep of an abstract constraint-set model (atoms = fresh/stale leaves required present/absent, marker lists from the real get_marker_versions) over epochs x version ranges, bound to the implementation by exhaustive conformance experiments and pair replays on real dishonest trees; plus exhaustive enumeration of small ARBITRARY (non-canonical) trees through the real membership / non-membership verifiers (presence and absence of one label never both verify)",
    text="For every epoch up to 64 (thorough 160) every pair of history ranges with different latest versions, and for every epoch up to 1024 (thorough 4096, plus 2^16 and 2^32 neighbourhoods) every (complete history latest n, lookup version m) pair is examined for an atom one proof needs present and the other absent. The abstraction is validated against the real verifiers on real trees built by a dishonest publisher: every history range and lookup at every epoch up to 7 (thorough 10) verifies on its minimal tree, fails with any one required leaf removed and with any one forbidden leaf added; pairs without a conflict atom are replayed on the union tree and reported only if both real verifiers accept. The known lookup-vs-history gap is pinned by the digest of the exact pair set."),
 }
 
